@@ -24,26 +24,30 @@ def getL (l : List (Nat × List Acc)) (t : Nat) : List Acc := ((l.find? (·.1 ==
 def setL (l : List (Nat × List Acc)) (t : Nat) (v : List Acc) : List (Nat × List Acc) :=
   (t, v) :: l.filter (·.1 != t)
 
+def showK : MKind → String | .lock => "l" | .tryl => "tl" | .alock => "la"
 def showAcc : Acc → String
-  | .shard i w => s!"shard{i}:{if w then "w" else "r"}"
-  | .maint i tr => s!"maint{i}:{if tr then "tl" else "l"}"
-  | .batch => "batch"
+  | .shard i w a => s!"shard{i}:{if w then "w" else "r"}{if a then "a" else ""}"
+  | .maint i k => s!"maint{i}:{showK k}"
+  | .batch k => s!"batch:{showK k}"
   | .clock => "clock"
 def showAccs (l : List Acc) : String := "[" ++ ",".intercalate (l.map showAcc) ++ "]"
+
+def parseK : String → Option MKind | "l" => some .lock | "tl" => some .tryl | "la" => some .alock | _ => none
 
 /-- `shard3` / `maint0` / `batch` + kind → event; `none` = an acquisition the model never performs -/
 def parseAcc (role kind : String) : Option Acc :=
   if role.startsWith "shard" then
     match (role.drop 5).toNat?, kind with
-    | some i, "r" => some (.shard i false)
-    | some i, "w" => some (.shard i true)
+    | some i, "r" => some (.shard i false false)
+    | some i, "w" => some (.shard i true false)
+    | some i, "ra" => some (.shard i false true)
+    | some i, "wa" => some (.shard i true true)
     | _, _ => none
   else if role.startsWith "maint" then
-    match (role.drop 5).toNat?, kind with
-    | some i, "l" => some (.maint i false)
-    | some i, "tl" => some (.maint i true)
+    match (role.drop 5).toNat?, parseK kind with
+    | some i, some k => some (.maint i k)
     | _, _ => none
-  else if role = "batch" && kind = "l" then some .batch
+  else if role = "batch" then (parseK kind).map Acc.batch
   else none
 
 def kv (ws : List String) (key : String) : Option String :=
@@ -99,7 +103,7 @@ def outcome (res : List String) : List String :=
 /-- run one model step and check outcome, return value and observation -/
 def doStep (st : St) (t : Nat) (l : Label) (res : List String) (tag : String)
     (check : State → State → Bool := fun _ _ => true) : Except String (St × List String) :=
-  let isCall := match l with | .call _ => true | _ => false
+  let isCall := match l with | .call _ _ => true | _ => false
   let expected := if isCall then [] else getL st.pre t ++ footprint st.c st.s t l
   let seen := getL st.evs t
   let fpOk := !st.strict || seen == expected ||
@@ -167,7 +171,11 @@ def step (st : St) (op res : List String) : Except String (St × List String) :=
     else .error s!"model=every-step-is-non-blocking impl={status}"
   | ts :: "call" :: rest =>
     match ts.toNat?, parseOp rest with
-    | some t, some o => doStep st t (.call o) res s!"call-{rest.headD "?"}"
+    | some t, some o => doStep st t (.call o false) res s!"call-{rest.headD "?"}"
+    | _, _ => .error "bad-op"
+  | ts :: "acall" :: rest =>
+    match ts.toNat?, parseOp rest with
+    | some t, some o => doStep st t (.call o true) res s!"acall-{rest.headD "?"}"
     | _, _ => .error "bad-op"
   | [ts, lab] =>
     match ts.toNat? with
